@@ -4,7 +4,7 @@ CONSTANTS
   KeySeq <- K3
   PathKeys = {"a", "b"}
   MaxPathLen = 2
-  WriteVals <- WAll
+  WriteVals <- WThree
   MergeVals <- MQ
   SetKeys = {"a", "a/b"}
   MaxDepth = 9
